@@ -516,7 +516,8 @@ func (ro *RedisOutput) sendRdb(pctx context.Context, reader ChannelReader) error
 					continue
 				}
 
-				if len(e.Key) > 0 {
+				if len(e.Key) > 0 || (e.ObjectParser != nil && e.ObjectParser.IsSplited()) {
+					// chunks of one key must go to one worker, also for the empty key name
 					idx = util.FnvHash(e.Key) % pipeLen
 				} else {
 					idx = (idx + 1) % pipeLen
